@@ -58,7 +58,9 @@ class NNSpacePartitioner:
         v2_onehot[v2] = 1.0
         self.v1 = v1_onehot
         self.v2 = v2_onehot
-        nn = NearestNeighbors(n_neighbors=self.k).fit(D)
+        # tree search computes distances coordinate-wise; the brute-force search that "auto" selects for
+        # k >= len(D) / 2 expands |x - y|^2 = |x|^2 - 2xy + |y|^2, which cancels for large-magnitude features
+        nn = NearestNeighbors(n_neighbors=self.k, algorithm="kd_tree").fit(D)
         # TODO: maybe we can gain performance by performing operations using the returned
         # scipy.sparse array, as opposed to converting this way.
         M_adj = nn.kneighbors_graph(D).toarray()
